@@ -219,8 +219,8 @@ def r4_pareto(ctx):
     # the value grid contains both zeros (numerically equal, different bit patterns) and +inf
     grid = (-0.0, 0.0, 1.0, float("inf")) if ctx.tier != "thorough" else (-1.0, -0.0, 0.0, 1.0, float("inf"))
     vecs = [v for ln in range(0, 3) for v in itertools.product(grid, repeat=ln)]
-    if ctx.tier == "thorough":
-        vecs += [v for v in itertools.product((-0.0, 0.0, 1.0), repeat=3)]
+    # length 3 gives every per-dimension outcome sequence over {better, tie, worse}^3 (e.g. better, tie, better)
+    vecs += [v for v in itertools.product((-0.0, 0.0, 1.0) if ctx.tier == "thorough" else (0.0, 1.0), repeat=3)]
     for a in vecs:
         for b in vecs:
             it = install(Interp(fn.body, chain(coll_oracle, std_oracle), [Ref(10001, [], frame="root"), Ref(10002, [], frame="root")], facts=F, inline=INL, max_visits=8))
